@@ -13,7 +13,7 @@ TRUSTED = [
     "bn_mxp_sim (= bn_mxp_sim_few at n = 2) and bn_mxp_sim_few for every n are class A as well (mxpSim / mxpSimFew, theorems mxp_sim_exact, mxp_sim_few_exact: "
     "table built block by block with unbuilt blocks for zero exponents, one squaring + one table multiplication per bit of the longest exponent; the signs of the exponents are "
     "ignored — known finding C09-ext-mxp-1 —, no zero-exponent exit, even modulus -> error, n = 0 leaves the result untouched, n > 8 -> error); class C in the Mxp family: "
-    "bn_mxp_sim_lot (not presented)",
+    "bn_mxp_sim_lot is modelled and executed as well (mxpSimLot)",
 ]
 
 # odd primes for Legendre / CRT lines (all below 2^256 so that they fit RLC_BN_DIGS of both configurations)
@@ -37,6 +37,9 @@ CORPUS = [
     "nt_mxp_few 9 7 2 0 5 2 3 4", "nt_mxp_few 9 7 2 3 5 0 3 4", "nt_mxp_few 9 7 2 3 5 2 3 0", "nt_mxp_few 9 7 2 0 5 0 3 0",
     "nt_mxp_few 9 b 2 1 3 1 5 1 7 1 2 1 3 1 5 1 7 1", "nt_mxp_few 9 b 2 1 3 1 5 1 7 1 2 1 3 1 5 1 7 1 2 1", "nt_mxp_few 9 1 2 1 3 1 5 1 7 1 2 1 3 1 5 1 7 1 2 1",
     "nt_mxp_few 9 b 2 3 3 0 5 ff 7 0 2 1 3 0 5 6 7 0", "nt_mxp_few 9 7 2 -3 5 2",
+    "nt_mxp_lot 7", "nt_mxp_lot 8", "nt_mxp_lot 1", "nt_mxp_lot 7 2 3", "nt_mxp_lot 7 2 0", "nt_mxp_lot 8 2 0", "nt_mxp_lot 8 2 3", "nt_mxp_lot 7 2 -1", "nt_mxp_lot 9 3 -1",
+    "nt_mxp_lot 7 2 3 5 2", "nt_mxp_lot b 2 1 3 1 5 1 7 1 2 1 3 1 5 1 7 1", "nt_mxp_lot b 2 1 3 1 5 1 7 1 2 1 3 1 5 1 7 1 6 5",
+    "nt_mxp_lot b 2 1 3 1 5 1 7 1 2 1 3 1 5 1 7 1 6 -1", "nt_mxp_lot b 2 1 3 1 5 1 7 1 2 1 3 1 5 1 7 1 6 5 2 3", "nt_mxp_lot 8 2 1 3 1 5 1 7 1 2 1 3 1 5 1 7 1",
     "nt_mxp_crt 5 3 3 8 b 0", "nt_mxp_crt 5 3 3 7 a 0", "nt_mxp_crt 5 3 3 1 b 0", "nt_mxp_crt 5 3 3 7 1 0",
 ]
 
@@ -196,6 +199,22 @@ def gen(rng, w, cap, digs, n):
             for i in range(nn):
                 toks += [hx(rng.choice(bs)), hx(((1 << lb) - 1) if i != clear else rng.choice([0, 1 << (lb - 1)]))]
             out.append(" ".join(["nt_mxp_few", "0", hx(m)] + toks))
+    # 3e. bn_mxp_sim_lot: block boundaries (8, 16), single leftover (through bn_mxp), several leftovers, zero exponents, modulus classes
+    for nn in (0, 1, 2, 7, 8, 9, 10, 15, 16, 17, 18, 20, 1, 9, 17):
+        for rep in range(2):
+            m = modulus(rng, w, digs) if rng.chance(7, 8) else rng.choice([1, 2, 6, -3, modulus(rng, w, digs, odd=False)])
+            bs = bases(rng, w, digs, m)
+            toks = []
+            zero_at = rng.below(nn) if nn and rep == 0 else -1
+            for i in range(nn):
+                lb = rng.choice([1, 2, 3, 8, 21, 33])
+                b_ = exponent(rng, lb, rng.choice(KINDS))
+                if i == zero_at or rng.chance(1, 8):
+                    b_ = 0
+                if i == nn - 1 and nn % 8 == 1 and rng.chance(1, 3):
+                    b_ = -b_          # the single leftover goes through bn_mxp, which inverts
+                toks += [hx(rng.choice(bs)), hx(b_)]
+            out.append(" ".join(["nt_mxp_lot", hx(m)] + toks))
     # 4. random lines
     for _ in range(n):
         k = rng.below(10)
